@@ -23,7 +23,9 @@
 (***************************************************************************)
 EXTENDS Naturals, Sequences, FiniteSets
 
-Seg == {"N1", "N2", "F", ".", "..", "", "ABS"}
+\* "OUT": the relative path (several segments) of an existing item in a directory NEXT TO the
+\* data root - what "../OUT" names if the root is not clamped
+Seg == {"N1", "N2", "F", ".", "..", "", "ABS", "OUT"}
 
 RECURSIVE NormAcc(_, _)
 NormAcc(s, acc) ==
